@@ -197,6 +197,13 @@ func judgeNormalise(c NormCase, o *vh.Obs) {
 		return
 	}
 	want, got := digitsOf(c.Code), digitsOf(y)
+	if c.Kind == "bare-siren" {
+		o.Class("bare-siren")
+		if full := pad(frKey(c.Code), 2) + c.Code; y != full {
+			o.Failf(r.key+":norm-bare-siren", "%s: the SIREN %q (written %q) normalises to %q, the VAT number is %q", c.Country, c.Code, c.Formatted, y, full)
+			return
+		}
+	}
 	okDigits := got == want
 	if r.key == "fr" && !okDigits {
 		// a bare SIREN is completed with its two key digits in front
